@@ -589,6 +589,12 @@ func lifecycleCase(c *Case, lean *LeanDriver) Verdict {
 			}
 		}
 	}
+	// the query handle tolerates every order of Cancel / Close / Exec: none of them may panic
+	// on the caller's goroutine (that is outside the engine's recover) or hang
+	if msg := apiSequences(c); msg != "" {
+		v.Other = msg
+		return v
+	}
 	// created but never executed: nothing may be opened
 	st2 := NewMemStorage(c.Data())
 	if q, err := c.NewQuery(NewThanos(c, EngOpts{}), st2); err == nil {
@@ -598,6 +604,42 @@ func lifecycleCase(c *Case, lean *LeanDriver) Verdict {
 		}
 	}
 	return v
+}
+
+func apiSequences(c *Case) (msg string) {
+	seqs := [][]string{
+		{"cancel", "close"}, {"close", "close"}, {"close", "cancel"}, {"cancel", "exec", "close"},
+		{"exec", "cancel", "close", "close"}, {"exec", "close", "cancel"}, {"cancel", "cancel", "exec", "cancel", "close"},
+	}
+	for _, sq := range seqs {
+		func() {
+			defer func() {
+				if r := recover(); r != nil {
+					msg = fmt.Sprintf("query API sequence %v panicked on the caller's goroutine: %v", sq, r)
+				}
+			}()
+			q, err := c.NewQuery(NewThanos(c, EngOpts{DisableFallback: true}), NewMemStorage(c.Data()))
+			if err != nil {
+				return
+			}
+			for _, op := range sq {
+				switch op {
+				case "cancel":
+					q.Cancel()
+				case "close":
+					q.Close()
+				case "exec":
+					ctx, cancel := bg()
+					q.Exec(ctx)
+					cancel()
+				}
+			}
+		}()
+		if msg != "" {
+			return msg
+		}
+	}
+	return ""
 }
 
 // ---------------------------------------------------------------------------------------------
